@@ -17,7 +17,7 @@ from ..absint import FALSE, NONE, TRUE, App, ClassV, Const, DictV, ListV, NodeV,
 from ..pyref import run_reference
 from ..repo import AnalysisError
 from ..schematic import (
-    HandlerPolicy, cpython_load_order, run_handler, shape_expr, shape_stmt,
+    MODULE_SCOPE, HandlerPolicy, cpython_load_order, run_handler, shape_expr, shape_stmt,
 )
 
 LEVEL_TEXT = (
@@ -61,6 +61,7 @@ EXPR_SHAPES = [
     "a0(**a1)", "a0(a1, k=a2, **a3)", "a0(a1, *a2, k=a3, **a4)", "a0(*a1, k=a2)",
     "f'{a0}'", "f'x{a0}y{a1}'", "f'{a0!r}'", "f'{a0!s}'", "f'{a0!a}'", "f'{a0:>5}'", "f'{a0:{a1}}'", "f'{a0!r:{a1}}'",
     "(x := a0)",
+    "a0(k=a1, **{'k': a2})", "a0(**[a1])", "a0(a1, **{'j': a2})", "{**[a0]}", "{a0: a1, **[a2]}",
     "[a0 for x in i1]", "[a0 for x in i1 if a2]", "[a0 for x in i1 if a2 if a3]",
     "[a0 for x in i1 for y in i2]", "[a0 for x in i1 if a2 for y in i3 if a4]",
     "{a0 for x in i1}", "{a0 for x in i1 if a2 if a3}", "{a0 for x in i1 for y in i2}",
@@ -73,6 +74,8 @@ STMT_SHAPES = [
     "[x, y] = (a0, a1)", "[x, *y] = (a0, a1, a2)",
     "a0[a1] = a2", "a0.attr = a1", "a0[a1], x = (a2, a3)", "a0[a1:a2] = a3",
     "x = a0[a1] = a2",
+    "x, *a0[a1] = (a2, a3, a4)", "*a0.attr, x = (a1, a2)",
+    "x: a0 = a1", "x: a0", "a2[a3]: a0 = a1", "a2.attr: a0 = a1",
     "x += a0", "x -= a0", "x *= a0", "a0[a1] += a2", "a0.attr += a1", "a0[a1:a2] += a3",
     "del x", "del a0[a1]", "del a0[a1], a2[a3]", "del a0.attr", "del x, y", "del a0[a1:a2]", "del (x, y)",
     "a0",
@@ -176,6 +179,66 @@ def run(ctx):
         else:
             ctx.ok("R01.7", handler, f"no AST mutation on `{src}`")
 
+    # R01.8 exceptions raised by script code keep their type ----------------------------------------------
+    ctx.rule("R01.8", "no interpreter handler replaces an exception raised while it drives script code (operand evaluation, calls, iteration) "
+                      "by one of another class", floor=3)
+    cls_node = program.cls("eval.py::AstEval")
+    n_try = 0
+    for fn in [f for f in cls_node.body if isinstance(f, (ast.FunctionDef, ast.AsyncFunctionDef))]:
+        unit = f"eval.py::AstEval.{fn.name}"
+        for tr in [t for t in ast.walk(fn) if isinstance(t, ast.Try)]:
+            drives = _drives_script(tr.body)
+            for h in tr.handlers:
+                n_try += 1
+                caught = _caught_names(h)
+                bound = h.name
+                bad = None
+                for r in [r for r in ast.walk(h) if isinstance(r, ast.Raise)]:
+                    if r.exc is None or (isinstance(r.exc, ast.Name) and r.exc.id == bound):
+                        continue  # re-raises what was caught
+                    raised = _raised_class(r.exc)
+                    if raised is not None and caught == {raised}:
+                        continue  # same class (message only)
+                    bad = (r, raised)
+                    break
+                if bad is None or not drives:
+                    ctx.ok("R01.8", unit, f"try@{_stmt_key(tr)} except {'/'.join(sorted(caught)) or 'all'}: "
+                                            f"{'keeps the exception' if bad is None else 'guards a single protocol query, not script code'}")
+                else:
+                    r, raised = bad
+                    ctx.fail("R01.8", unit, f"except {'/'.join(sorted(caught)) or 'all'} -> raise {raised or ast.unparse(r.exc)[:40]}",
+                             f"`{ast.unparse(h).splitlines()[0]}` covers `{drives}` (script code runs there) and raises {raised or 'another exception'} instead: "
+                             "the exception the script raised is replaced (Python propagates it unchanged)", rel="eval.py", node=h)
+
+    # R01.9 what the scope restore does with each saved / unsaved name ----------------------------------------
+    ctx.rule("R01.9", "comprehension scope restore: a name bound before the comprehension gets exactly its saved value back (also None, 0, ''), "
+                      "a name that was unbound is unbound again, other names are untouched", floor=5)
+    unit = "eval.py::AstEval.loopvar_scope_restore"
+    fn = program.func(unit)
+    cases = [
+        ("outer value", [("x", Sym("outer"))], [("x", Sym("loop")), ("y", Sym("other"))], {"x": Sym("outer"), "y": Sym("other")}),
+        ("outer value None", [("x", NONE)], [("x", Sym("loop"))], {"x": NONE}),
+        ("outer value 0", [("x", Const(0))], [("x", Sym("loop"))], {"x": Const(0)}),
+        ("outer value ''", [("x", Const(""))], [("x", Sym("loop"))], {"x": Const("")}),
+        ("unbound before, bound by the loop", [], [("x", Sym("loop")), ("y", Sym("other"))], {"y": Sym("other")}),
+        ("unbound before, empty iterable", [], [("y", Sym("other"))], {"y": Sym("other")}),
+    ]
+    for label, saved, table, want in cases:
+        heap = dict(MODULE_SCOPE)
+        heap["self.sym_table"] = DictV(tuple((Const(k), v) for k, v in table))
+        out = run_handler(program, ListV((Const("x"),), "set"), HandlerPolicy(program, opaque_methods=()), method="loopvar_scope_restore",
+                          extra_args=[DictV(tuple((Const(k), v) for k, v in saved))], heap=heap)
+        got = []
+        for kind in ("return", "raise", "normal"):
+            for c in out.get(kind):
+                tab = c.heap.get("self.sym_table")
+                got.append((kind if kind != "normal" else "return",
+                            {k.v: v for k, v in tab.items} if isinstance(tab, DictV) else repr(tab)))
+        good = bool(got) and all(kind == "return" and tab == want for kind, tab in got)
+        ctx.check(good, "R01.9", unit, f"restore with {label}",
+                  msg=f"restoring loop variable x ({label}): scope afterwards is {got}, Python leaves {want}",
+                  key=f"restore:{label}", node=fn, rel="eval.py")
+
     return (
         "Static, source-only: each AstEval handler is partially evaluated (abstract interpretation over the ast of eval.py) "
         "on schematic nodes built from probe sources; its path set (ordered operand evaluations, loads, stores, calls, result term) "
@@ -184,6 +247,45 @@ def run(ctx):
         "R01.6 comprehension scope restore on every exit, R01.7 AST immutability. Not decided: values of host operations, "
         "deep nestings beyond the per-handler induction, generator expressions."
     )
+
+
+def _stmt_key(node):
+    return ast.unparse(node.body[0]).splitlines()[0][:50]
+
+
+def _caught_names(h):
+    if h.type is None:
+        return set()
+    if isinstance(h.type, ast.Tuple):
+        return {ast.unparse(e) for e in h.type.elts}
+    return {ast.unparse(h.type)}
+
+
+def _raised_class(exc):
+    if isinstance(exc, ast.Call):
+        exc = exc.func
+    return ast.unparse(exc) if isinstance(exc, (ast.Name, ast.Attribute)) else None
+
+
+SINGLE_QUERIES = {"iter", "len", "hash", "getattr", "hasattr", "isinstance", "type", "id", "callable"}
+
+
+def _drives_script(body):
+    """The first construct in ``body`` that runs script code: an await (operand evaluation / call of a script function), a loop or an
+    unpacking over a value (drives its iterator), ``next``/``list``/``tuple``/... of a value.  ``iter(x)``/``len(x)`` alone are single protocol queries
+    whose TypeError the interpreter may rephrase."""
+    for st in body:
+        for n in ast.walk(st):
+            if isinstance(n, (ast.Await, ast.For, ast.AsyncFor, ast.Starred, ast.ListComp, ast.SetComp, ast.DictComp, ast.GeneratorExp, ast.YieldFrom)):
+                return ast.unparse(n).splitlines()[0][:60]
+            if isinstance(n, ast.Call):
+                f = n.func
+                if isinstance(f, ast.Name) and f.id in SINGLE_QUERIES:
+                    continue
+                if isinstance(f, ast.Name) and f.id[:1].isupper():
+                    continue  # constructing an interpreter-side object
+                return ast.unparse(n).splitlines()[0][:60]
+    return None
 
 
 def thorough(ctx):
